@@ -90,6 +90,11 @@ def rclass(r):
     return "fin"
 
 
+def xcls(v):
+    """point-identity class for TLC: "t" exact to rounding, "r" equal up to a re-projection (projection runs only), "f" different"""
+    return "r" if v == "r" else ("t" if v else "f")
+
+
 def mean_matches(stored, samples):
     """stored residual == arithmetic mean of the samples, to rounding of the running average: 1e-12 relative to the size of the
     samples (the mean itself can cancel to zero); exact for a single sample"""
@@ -213,7 +218,12 @@ class Run(object):
             xb = self.to_user(xbase)
             scale = max(scale, float(np.max(np.abs(xb))))
         with np.errstate(all="ignore"):
-            xok = bool(np.all(np.abs(xu - p["x"]) <= 256 * EPS * scale))
+            dev = float(np.max(np.abs(xu - p["x"]))) if len(xu) else 0.0
+            xok = bool(dev <= 256 * EPS * scale)
+            if not xok and self.P["sets"] and dev <= 10.0 * math.sqrt(self.nsets * self.dyk_tol) * scale:
+                # with projections the code's read accessor RE-projects the stored point: when the routine's output is not a fixed point of the routine the
+                # two differ at the level of the Dykstra tolerance.  Recorded as its own class ("r") so that it is reported under its own clause.
+                xok = "r"
             k = int(ns)
             if k < 1 or k > len(p["rs"]):
                 rok = False
@@ -277,16 +287,17 @@ def install(run):
                 a, b, c = run.ident(self._slot_abs(k), self.fval_v[k, :], self.objval[k], self.nsamples[k], self.eval_num[k], self.xbase)
                 xok.append(a); rok.append(b); ook.append(c)
             je = self.model_jac_eval_nums
+            xok = [xcls(v) for v in xok]
             d = dict(npt=int(npt), numpts=int(self.num_pts), kopt=int(self.kopt), en=[int(v) for v in self.eval_num[:npt]],
                      ns=[int(v) for v in self.nsamples[:npt]], obj=[_fl(v) for v in self.objval[:npt]], xok=xok, rok=rok, ook=ook,
                      hassave=self.objsave is not None, fc=bool(self.factorisation_current),
                      jacen=[] if je is None else [int(v) for v in je])
             if self.objsave is not None:
                 a, b, c = run.ident(self.xsave, self.rsave, self.objsave, self.nsamples_save, self.eval_num_save)
-                d.update(objsave=_fl(self.objsave), ensave=int(self.eval_num_save), nssave=int(self.nsamples_save), xoksave=a, roksave=b, ooksave=c,
+                d.update(objsave=_fl(self.objsave), ensave=int(self.eval_num_save), nssave=int(self.nsamples_save), xoksave=xcls(a), roksave=b, ooksave=c,
                          jacsaveen=[] if self.jacsave_eval_nums is None else [int(v) for v in self.jacsave_eval_nums])
             else:
-                d.update(objsave=0.0, ensave=-1, nssave=-1, xoksave=True, roksave=True, ooksave=True, jacsaveen=[])
+                d.update(objsave=0.0, ensave=-1, nssave=-1, xoksave="t", roksave=True, ooksave=True, jacsaveen=[])
             return d
 
         def _rec(self, name, **kw):
@@ -686,10 +697,14 @@ def emit_return(run, s, kw, inputs_ok, extra_return):
         p = run.points.get(en)
         with np.errstate(all="ignore"):
             if p is None:
-                d.update(xok=False, rok=False, objok=False)
+                d.update(xok="f", rok=False, objok=False)
             else:
                 scale = max(1.0, float(np.max(np.abs(x))), float(np.max(np.abs(p["x"]))), float(np.max(np.abs(P["x0"]))))
-                d["xok"] = bool(np.all(np.abs(x - p["x"]) <= 256 * EPS * scale))
+                dev = float(np.max(np.abs(x - p["x"])))
+                d["xok"] = bool(dev <= 256 * EPS * scale)
+                if not d["xok"] and P["sets"] and dev <= 10.0 * math.sqrt(run.nsets * run.dyk_tol) * scale:
+                    d["xok"] = "r"
+                d["xok"] = xcls(d["xok"])
                 d["rok"] = mean_matches(s.resid, p["rs"])
                 d["objok"] = run._ook(x, s.resid, s.obj)
             # f(x0): objective at the first evaluation point (mean over its samples) -> the 'sufficiently small' threshold (C10)
